@@ -72,10 +72,16 @@ func (s Schema) Values(t Term, budget int) []any {
 		case "float":
 			out = []any{num("1.5"), num("2.5")}
 		default:
-			out = []any{t.A[len("disc:"):], "other"}
+			if lit, _, ok := numConst(t); ok {
+				out = []any{num(lit), num("8")}
+			} else {
+				out = []any{t.A[len("disc:"):], "other"}
+			}
 		}
 	case "enum":
-		if t.A == "int" {
+		if t.A == "big" {
+			out = []any{num(BigEnumMembers[0]), num(BigEnumMembers[1]), num("3")}
+		} else if t.A == "int" {
 			out = []any{num("1"), num("2"), num("3")}
 		} else {
 			out = []any{"a", "b", "zzz"}
